@@ -1,10 +1,48 @@
-(* C14 — txtar quoting: NeedsQuote is exact and Quote/Unquote are inverse. *)
+(* C14 — txtar quoting: NeedsQuote is exact and Quote/Unquote are inverse.
+   Only the property theorems, each closed by [exact] of a lemma proved in
+   Txtar/TxtarFacts.v or Txtar/QuoteFacts.v, with Print Assumptions beneath it. *)
 From Coq Require Import List.
 From Coq.Strings Require Import Byte.
-From GI Require Import Lib.Bytes Gen.TxtarConsts Txtar.Txtar Txtar.TxtarFacts.
+From GI Require Import Lib.Bytes Gen.TxtarConsts Txtar.Txtar Txtar.TxtarFacts Txtar.QuoteFacts.
 Import ListNotations.
 
-Theorem C14_placeholder_crlf : forall l,
-  last_byte l <> Some CR -> marker_line (l ++ [CR; NL]) = marker_line (l ++ [NL]).
-Proof. exact marker_line_crlf. Qed.
-Print Assumptions C14_placeholder_crlf.
+Theorem C14_needs_quote_exact : forall d,
+  needs_quote d = true <-> exists l n, In l (split_lines d) /\ marker_line l = Some n.
+Proof. exact needs_quote_exact. Qed.
+Print Assumptions C14_needs_quote_exact.
+
+Theorem C14_needs_quote_final_newline : forall d, needs_quote (fix_nl d) = needs_quote d.
+Proof. exact needs_quote_fix_nl. Qed.
+Print Assumptions C14_needs_quote_final_newline.
+
+Theorem C14_needs_quote_semantic : forall n d,
+  wf_name n = true ->
+  (needs_quote d = false <->
+   parse (format {| comment := []; files := [(n, d)] |})
+   = {| comment := []; files := [(n, fix_nl d)] |}).
+Proof. exact needs_quote_semantic. Qed.
+Print Assumptions C14_needs_quote_semantic.
+
+Theorem C14_unquote_quote : forall d q, quote d = Some q -> unquote q = Some d.
+Proof. exact unquote_quote. Qed.
+Print Assumptions C14_unquote_quote.
+
+Theorem C14_quote_clean : forall d q c n,
+  quote d = Some q -> wf_text c = true -> wf_name n = true ->
+  needs_quote q = false /\
+  parse (format {| comment := c; files := [(n, q)] |}) = {| comment := c; files := [(n, q)] |}.
+Proof. exact quote_clean_survives. Qed.
+Print Assumptions C14_quote_clean.
+
+Theorem C14_quote_survives : forall d q c n fs1 fs2,
+  quote d = Some q ->
+  wf_archive {| comment := c; files := fs1 ++ fs2 |} = true -> wf_name n = true ->
+  parse (format {| comment := c; files := fs1 ++ (n, q) :: fs2 |})
+  = {| comment := c; files := fs1 ++ (n, q) :: fs2 |}.
+Proof. exact quote_survives. Qed.
+Print Assumptions C14_quote_survives.
+
+Theorem C14_quote_refuses : forall d,
+  quote d = None <-> d <> [] /\ (last_byte d <> Some NL \/ utf8_valid d = false).
+Proof. exact quote_refuses. Qed.
+Print Assumptions C14_quote_refuses.
